@@ -126,6 +126,16 @@ def directed_histories():
     D.append(dict(kind="P", fs=48000, ch=5, app=0, pre=[], sig=2, fd=8, lsb16=False, fmts=[0, 2, 1], stream=("E3", 1),
                   ops=[("C", 1), ("C", 2), ("C", 3), ("U", 1, 0, 6, 0), ("U", 2, 0, 6, 0), ("U", 3, 0, 6, 0), ("Y", 1, 2), ("U", 2, 6, 3, 0),
                        ("U", 1, 6, 3, 0)], tokens={}, lens=None, modes=[0, 1, 2]))
+    # multistream / surround encoders through the three entry points with the analysis running, LSB depth <= 16, channels that differ
+    # within the coupled streams: the stream-by-stream packet identity
+    q = 0
+    for lay in (1, 3, 2, 0):
+        for (fs, sig, lsb) in ((48000, 10, 16), (16000, 2, 12), (48000, 1, 16)):
+            q += 1
+            nch = [2, 3, 6, 4][lay]
+            D.append(dict(kind="E", fs=fs, ch=lay, app=[2049, 2048, 2051][q % 3], pre=[(4036, lsb), (4010, 10), (4002, 32000 * nch)], sig=sig, fd=8,
+                          lsb16=False, ops=[("C", 1), ("C", 2), ("C", 3), ("U", 1, 0, 8, 0), ("U", 2, 0, 8, 1), ("U", 3, 0, 8, 2)],
+                          tokens={}, lens=None, once=True, tiers=("quick", "thorough") if q % 3 != 2 else ("thorough",)))
     plines, psidx = packet_streams(None)
     fdmap = stream_fd(plines)
     # decoders carrying settings (phase inversion other than the default of their channel count, gain, complexity) on anti-phase
